@@ -203,8 +203,12 @@ def part_patterns(res, rng, tier, n):
             if pat.data[ln][tr].raw_data != image[off:off + 8]:
                 res.violation("C12:pattern-row-major", f"{tracks}x{lines}: cell ({ln},{tr}) is {pat.data[ln][tr].raw_data.hex()}, image has {image[off:off + 8].hex()}", case)
                 break
-        # through a file
+        # through a file; the legacy fix-up (module high byte cleared) is documented for files whose VERS is below
+        # 1.9.5.0 only - the version a project is "based on" must not matter
         p = Project()
+        p.based_on_version = rng.choice([(1, 7, 0, 0), (1, 9, 4, 0), (2, 1, 2, 1), (0, 0, 0, 0), (1, 9, 5, 0)])
+        p.sunvox_version = rng.choice([(2, 1, 2, 1), (1, 9, 5, 0), (1, 9, 6, 1), (255, 0, 0, 0)])
+        res.hist("file_versions", f"VERS{p.sunvox_version[:3]}/BVER{p.based_on_version[:3]}")
         p.attach_pattern(pat)
         raw = p.read()
         pdta = [c for c in iffparse.parse(raw) if c[0] == b"PDTA"]
@@ -216,10 +220,83 @@ def part_patterns(res, rng, tier, n):
         if (pat2.tracks, pat2.lines) != (tracks, lines) or pat2.raw_data != image:
             res.violation("C12:pattern-image-load", f"{tracks}x{lines}: image differs after load", case)
             continue
-        if p2.read() != raw:
-            res.violation("C12:pattern-image-resave", f"{tracks}x{lines}: re-saved file differs", case)
+        again = [c for c in iffparse.parse(p2.read()) if c[0] == b"PDTA"]
+        if len(again) != 1 or again[0][1] != image:
+            res.violation("C12:pattern-image-resave", f"{tracks}x{lines}: the image saved again after loading differs", case)
         if k == 0:
             res.sample({"part": "pattern", **case, "image_hex": image.hex()[:64]})
+
+
+def part_pattern_sequences(res, rng, n):
+    """History checker for one pattern: assign an image, clear(), edit a cell, bulk edit, read - in any order, with
+    a list-of-cells model.  Reads are deliberately NOT made after every step: some implementations decode lazily and a
+    read would refresh their state; the final raw_data (and the saved PDTA) must equal the model."""
+    import rv.api as api
+    from rv.note import NOTECMD
+    vals = sorted({int(m) for m in NOTECMD})
+
+    def rcell():
+        return ref_cell(rng.choice(vals), rng.randint(0, 129), rng.randrange(65536), rng.randrange(65536), rng.randrange(65536))
+    for s in range(n):
+        tracks, lines = rng.randint(1, 6), rng.randint(1, 8)
+        ncell = tracks * lines
+        start = rng.choice(("fresh", "loaded"))
+        model = [bytes(8)] * ncell
+        if start == "loaded":
+            img = [rcell() for _ in range(ncell)]
+            q0 = api.Pattern(tracks=tracks, lines=lines)
+            q0.raw_data = b"".join(img)
+            p0 = api.Project()
+            p0.attach_pattern(q0)
+            proj = api.read_sunvox_file(__import__("io").BytesIO(p0.read()))
+            pat = proj.patterns[0]
+            model = list(img)
+        else:
+            pat = api.Pattern(tracks=tracks, lines=lines)
+            proj = None
+        history = [start]
+        for k in range(rng.randint(1, 6)):
+            op = rng.choice(("assign", "clear", "cell", "bulk", "read", "read-data"))
+            history.append(op)
+            if op == "assign":
+                model = [rcell() for _ in range(ncell)]
+                pat.raw_data = b"".join(model)
+            elif op == "clear":
+                pat.clear()
+                model = [bytes(8)] * ncell
+            elif op == "cell":
+                i = rng.randrange(ncell)
+                c = rcell()
+                n_ = pat.data[i // tracks][i % tracks]
+                n_.raw_data = c
+                model[i] = c
+            elif op == "bulk":
+                c = rcell()
+                note, vel, module, ctl, val = struct.unpack("<BBHHH", c)
+                pat.set_via_fn(lambda p_, l, t: api.Note(note=NOTECMD(note), vel=vel, module=module, ctl=ctl, val=val))
+                model = [c] * ncell
+            elif op == "read":
+                if pat.raw_data != b"".join(model):
+                    res.violation("C12:pattern-sequence", f"after {history}: raw_data differs from the cells the operations denote", {"history": history, "tracks": tracks, "lines": lines})
+                    break
+            else:
+                pat.data
+        else:
+            res.case((s, tuple(history)))
+            res.count("pattern_sequences")
+            want = b"".join(model)
+            saved = None
+            if proj is not None and rng.random() < 0.5:
+                saved = [c for c in iffparse.parse(proj.read()) if c[0] == b"PDTA"][0][1]
+            got = pat.raw_data
+            if (saved is not None and saved != want) or got != want:
+                res.violation("C12:pattern-sequence", f"after {history}: {'saved PDTA' if saved is not None and saved != want else 'raw_data'} differs from the cells the operations denote",
+                              {"history": history, "tracks": tracks, "lines": lines})
+            cells_now = [n_.raw_data for line in pat.data for n_ in line]
+            if cells_now != model:
+                res.violation("C12:pattern-sequence-cells", f"after {history}: Pattern.data differs from the model", {"history": history})
+        if s == 0:
+            res.sample({"part": "pattern operation sequence", "shape": [tracks, lines], "history": history})
 
 
 # ------------------------------------------------------------------ (d) visualization
@@ -349,6 +426,7 @@ def run_shard(spec_, res):
         part_notes(res, rng, spec_["tier"])
     elif part == "patterns":
         part_patterns(res, rng, spec_["tier"], spec_["n"])
+        part_pattern_sequences(res, rng, spec_["n"] * 6)
     elif part == "vis":
         part_vis(res, spec_["level_mode"], spec_["tier"], rng)
     elif part == "packed_io":
